@@ -1,103 +1,126 @@
 import Spine.Approval
 import Spine.ApprovalConn
-open Spine.Appr
+open Spine
 /-! Line protocol for the write-approval model (C12). One op per line, one answer per line.
-    The member of the family is chosen by the command line: `tally=0|1` (tally map re-created: 1 = as written),
-    `stop=0|1` (result of timer.Stop() ignored: 1 = as written). One model state per peer (the maps of
-    feature_local.go are keyed by the peer's SKI; the harness binds every peer to a feature of its own).
+    The model driven is `Spine.ApprE` (maps keyed by counter as in the code, write instances = (epoch, counter)),
+    one state per peer. Member of the family by command line: `tally=0|1` (1 = tally map re-created), `stop=0|1`
+    (1 = result of timer.Stop() ignored), `recheck=0|1` (1 = pending entry re-checked before counting),
+    `msgid=0|1` (1 = pending lookup by message identity). For the fully repaired member the instance-keyed model
+    `Spine.Appr` (the one the all-schedule theorems are about) runs side by side; if its outcomes ever differ the
+    answer is prefixed with `MODEL-DIVERGENCE`.
 
-    ops:  reset <nCb>            -> ok
-          arrive <p> <w>         -> pres=<number of callback invocations> [outcomes]
-          lookup <id> <p> <w>    -> outcomes (none)
-          commit <id> <p> <0|1>  -> outcomes
-          expire <p> <w>         -> outcomes (timeoutTake ; timeoutSend)
-          drop <p>               -> the peer's connection is removed (Spine.Appr.dropConn)
-          take <p> <w> / send <p> <w>   -> the two halves of the timeout on their own
-          pending <p>            -> the pending writes (debugging)
-    outcomes: `.` or a sorted comma-separated list of `<w>:applied`, `<w>:derr` (error produced by a verdict),
-    `<w>:terr` (error produced by the timeout). -/
+    ops:  reset <nCb>                 -> ok
+          arrive <p> <c>              -> pres=<n> [outcomes]      (instance = (current epoch of p, c))
+          lookup <id> <p> <ep> <c>    -> outcomes (none)          (the verdict's MESSAGE is instance (ep, c))
+          commit <id> <p> <0|1>       -> outcomes
+          expire <p> <ep> <c>         -> outcomes (timeoutTake ; timeoutSend)
+          take / send <p> <ep> <c>    -> the halves on their own
+          drop <p>                    -> the peer's connection is removed
+          member                      -> the flags
+    outcomes: `.` or sorted comma-separated `<ep>/<c>:applied|derr|terr`. -/
 
-def kindStr (o : Out) (timeout : Bool) : String :=
+def kindStr (o : Appr.Out) (timeout : Bool) : String :=
   match o with
   | .applied => "applied"
   | .error => if timeout then "terr" else "derr"
 
-def showNew (before : Nat) (s' : St) (timeout : Bool) : String :=
-  let ss := (s'.outcomes.drop before).map fun (w, o) => s!"{w}:{kindStr o timeout}"
-  if ss.isEmpty then "." else ",".intercalate (ss.toArray.qsort (· < ·)).toList
+structure P where
+  e : ApprE.St
+  a : Appr.St          -- the instance-keyed twin (meaningful for the fully repaired member only)
 
-def getP (ps : Array St) (p : Nat) : Option St := ps[p]?
+def key (i : ApprE.Inst) : Nat := i.1 * 1000000 + i.2
 
-def answer (c : Cfg) (ps : Array St) (ws : List String) : Array St × String :=
+def showNew (p p' : P) (timeout : Bool) (twin : Bool) : String :=
+  let ne := (p'.e.outcomes.drop p.e.outcomes.length).map fun (i, o) => s!"{i.1}/{i.2}:{kindStr o timeout}"
+  let na := (p'.a.outcomes.drop p.a.outcomes.length).map fun (w, o) => s!"{w / 1000000}/{w % 1000000}:{kindStr o timeout}"
+  let se := (ne.toArray.qsort (· < ·)).toList
+  let sa := (na.toArray.qsort (· < ·)).toList
+  let body := if se.isEmpty then "." else ",".intercalate se
+  if twin && se != sa then s!"MODEL-DIVERGENCE instance-keyed={sa} {body}" else body
+
+def full (c : ApprE.Cfg) : Bool := !c.tallyReset && !c.ignoreStop && c.recheck && c.msgId
+
+def stepP (c : ApprE.Cfg) (p : P) (e : ApprE.Ev) : P :=
+  let ae : Option Appr.Ev := match e with
+    | .arrive ctr => some (.arrive (key (p.e.ep, ctr)))
+    | .lookup op m => some (.lookup op (key m))
+    | .commit op a => some (.commit op a)
+    | .timeoutTake t => some (.timeoutTake (key t))
+    | .timeoutSend t => some (.timeoutSend (key t))
+    | .drop => some .drop
+  { e := ApprE.step c p.e e, a := match ae with | some x => Appr.step Appr.Cfg.clean p.a x | none => p.a }
+
+def nats (l : List String) : Option (List Nat) := l.mapM (·.toNat?)
+
+def answer (c : ApprE.Cfg) (ps : Array P) (ws : List String) : Array P × String :=
+  let tw := full c
   match ws with
-  | ["arrive", p, w] =>
-    match p.toNat?, w.toNat? with
-    | some p, some w =>
-      match getP ps p with
-      | some s =>
-        let s' := step c s (.arrive w)
-        (ps.set! p s', s!"pres={s'.presented.length - s.presented.length} {showNew s.outcomes.length s' false}")
+  | "arrive" :: r =>
+    match nats r with
+    | some [p, ctr] => match ps[p]? with
+      | some s => let s' := stepP c s (.arrive ctr)
+                  (ps.set! p s', s!"pres={s'.e.presented - s.e.presented} {showNew s s' false tw}")
       | none => (ps, "bad-op")
-    | _, _ => (ps, "bad-op")
-  | ["lookup", id, p, w] =>
-    match id.toNat?, p.toNat?, w.toNat? with
-    | some id, some p, some w =>
-      match getP ps p with
-      | some s => let s' := step c s (.lookup id w); (ps.set! p s', showNew s.outcomes.length s' false)
+    | _ => (ps, "bad-op")
+  | "lookup" :: r =>
+    match nats r with
+    | some [id, p, ep, ctr] => match ps[p]? with
+      | some s => let s' := stepP c s (.lookup id (ep, ctr)); (ps.set! p s', showNew s s' false tw)
       | none => (ps, "bad-op")
-    | _, _, _ => (ps, "bad-op")
-  | ["commit", id, p, a] =>
-    match id.toNat?, p.toNat?, a.toNat? with
-    | some id, some p, some a =>
-      match getP ps p with
-      | some s => let s' := step c s (.commit id (a == 1)); (ps.set! p s', showNew s.outcomes.length s' false)
+    | _ => (ps, "bad-op")
+  | "commit" :: r =>
+    match nats r with
+    | some [id, p, a] => match ps[p]? with
+      | some s => let s' := stepP c s (.commit id (a == 1)); (ps.set! p s', showNew s s' false tw)
       | none => (ps, "bad-op")
-    | _, _, _ => (ps, "bad-op")
-  | ["expire", p, w] =>
-    match p.toNat?, w.toNat? with
-    | some p, some w =>
-      match getP ps p with
-      | some s => let s' := step c (step c s (.timeoutTake w)) (.timeoutSend w); (ps.set! p s', showNew s.outcomes.length s' true)
+    | _ => (ps, "bad-op")
+  | "expire" :: r =>
+    match nats r with
+    | some [p, ep, ctr] => match ps[p]? with
+      | some s => let s' := stepP c (stepP c s (.timeoutTake (ep, ctr))) (.timeoutSend (ep, ctr))
+                  (ps.set! p s', showNew s s' true tw)
       | none => (ps, "bad-op")
-    | _, _ => (ps, "bad-op")
-  | ["take", p, w] =>
-    match p.toNat?, w.toNat? with
-    | some p, some w =>
-      match getP ps p with
-      | some s => let s' := step c s (.timeoutTake w); (ps.set! p s', showNew s.outcomes.length s' true)
+    | _ => (ps, "bad-op")
+  | "take" :: r =>
+    match nats r with
+    | some [p, ep, ctr] => match ps[p]? with
+      | some s => let s' := stepP c s (.timeoutTake (ep, ctr)); (ps.set! p s', showNew s s' true tw)
       | none => (ps, "bad-op")
-    | _, _ => (ps, "bad-op")
-  | ["send", p, w] =>
-    match p.toNat?, w.toNat? with
-    | some p, some w =>
-      match getP ps p with
-      | some s => let s' := step c s (.timeoutSend w); (ps.set! p s', showNew s.outcomes.length s' true)
+    | _ => (ps, "bad-op")
+  | "send" :: r =>
+    match nats r with
+    | some [p, ep, ctr] => match ps[p]? with
+      | some s => let s' := stepP c s (.timeoutSend (ep, ctr)); (ps.set! p s', showNew s s' true tw)
       | none => (ps, "bad-op")
-    | _, _ => (ps, "bad-op")
+    | _ => (ps, "bad-op")
   | ["drop", p] =>
     match p.toNat? with
-    | some p => match getP ps p with
-      | some s => let s' := dropConn s; (ps.set! p s', showNew s.outcomes.length s' false)
+    | some p => match ps[p]? with
+      | some s => let s' := stepP c s .drop; (ps.set! p s', showNew s s' false tw)
       | none => (ps, "bad-op")
     | none => (ps, "bad-op")
   | ["pending", p] =>
     match p.toNat? with
-    | some p => match getP ps p with
-      | some s => (ps, toString s.pending)
+    | some p => match ps[p]? with
+      | some s => (ps, toString s.e.pending)
       | none => (ps, "bad-op")
     | none => (ps, "bad-op")
   | _ => (ps, "bad-op")
 
-partial def loop (h out : IO.FS.Stream) (c : Cfg) (ps : Array St) : IO Unit := do
+def fresh (n : Nat) : Array P :=
+  #[{ e := { nCb := n }, a := { nCb := n } }, { e := { nCb := n }, a := { nCb := n } }, { e := { nCb := n }, a := { nCb := n } }]
+
+partial def loop (h out : IO.FS.Stream) (c : ApprE.Cfg) (ps : Array P) : IO Unit := do
   let line ← h.getLine
   if line.isEmpty then out.flush; return ()
   let ws := (line.trimAscii.toString.splitOn " ").filter (· ≠ "")
   match ws with
   | ["reset", n] =>
     match n.toNat? with
-    | some n => out.putStrLn "ok"; out.flush; loop h out c #[{ nCb := n }, { nCb := n }, { nCb := n }]
+    | some n => out.putStrLn "ok"; out.flush; loop h out c (fresh n)
     | none => out.putStrLn "bad-op"; out.flush; loop h out c ps
-  | ["member"] => out.putStrLn s!"tally={c.tallyReset} stop={c.ignoreStop}"; out.flush; loop h out c ps
+  | ["member"] =>
+    out.putStrLn s!"tally={c.tallyReset} stop={c.ignoreStop} recheck={c.recheck} msgid={c.msgId}"; out.flush; loop h out c ps
   | _ =>
     let (ps', ans) := answer c ps ws
     out.putStrLn ans
@@ -105,5 +128,6 @@ partial def loop (h out : IO.FS.Stream) (c : Cfg) (ps : Array St) : IO Unit := d
     loop h out c ps'
 
 def main (args : List String) : IO Unit := do
-  let c : Cfg := { tallyReset := !args.contains "tally=0", ignoreStop := !args.contains "stop=0" }
-  loop (← IO.getStdin) (← IO.getStdout) c #[{ nCb := 1 }, { nCb := 1 }, { nCb := 1 }]
+  let c : ApprE.Cfg := { tallyReset := args.contains "tally=1", ignoreStop := args.contains "stop=1",
+                         recheck := !args.contains "recheck=0", msgId := !args.contains "msgid=0" }
+  loop (← IO.getStdin) (← IO.getStdout) c (fresh 1)
